@@ -118,3 +118,104 @@ func renewal(r *ev.Run) {
 		}
 	}
 }
+
+// severalOrphans: one token carries several hardware certificates over one key (touch, touchless, firefighter). The key
+// leaves the underlying agent while other identities stay: from the next listing on none of those certificates is
+// listed, offered as a signer or signed with — all of them, not all but one.
+func severalOrphans(r *ev.Run) {
+	idx := 0
+	for _, noUp := range []bool{false, true} {
+		for _, n := range []int{2, 3, 5} {
+			for _, first := range []string{"list", "signers", "sign"} {
+				c := r.Case("several-orphans", idx)
+				idx++
+				if c == nil {
+					continue
+				}
+				rec := map[string]any{"no_upstream": noUp, "hardware_certificates_on_the_key": n, "first_operation": first}
+				r.Eval(1)
+				if _, hung := r.GuardWithin(c, "several orphans", rec, ev.CaseBudget(), func() {
+					ag := wire.New()
+					defer ag.Close()
+					sock, err := ag.Listen()
+					if err != nil {
+						r.Inconclusive(err.Error())
+						return
+					}
+					pool := gen.Pool()
+					k, other := pool[(idx*2)%len(pool)], pool[(idx*2+1)%len(pool)]
+					ag.Keyring.Add(agent.AddedKey{PrivateKey: k.Priv, Comment: "token key"})
+					ag.Keyring.Add(agent.AddedKey{PrivateKey: other.Priv, Comment: "another key"})
+					s, err := shimagent.New(shimagent.Option{Address: sock, NoUpstream: noUp})
+					if err != nil {
+						r.Violation(c, "shim-construction-fails-without-fault", err.Error(), rec)
+						return
+					}
+					defer s.Close()
+					now := uint64(time.Now().Unix())
+					var certs []*ssh.Certificate
+					for i := 0; i < n; i++ {
+						spec := gen.KeyIDSpec{HW: true, Touch: []int{3, 1, 3, 2, 1}[i], FF: i == 2, TransID: fmt.Sprintf("orphan%04d", i), Prins: []string{"u"}}
+						crt := gen.MakeCert(gen.CertSpec{Key: k, KeyID: gen.YSSHCAKeyID(spec), ValidAfter: now - 600, ValidBefore: now + 7200, Principals: []string{"u"}, Serial: uint64(100 + i)})
+						if err := s.AddHardCert(crt, fmt.Sprintf("hw%d", i)); err != nil {
+							r.Violation(c, "hardware-cert-with-held-key-refused", err.Error(), rec)
+							return
+						}
+						certs = append(certs, crt)
+					}
+					if l, err := s.List(); err != nil || len(l) != n+2 {
+						r.Violation(c, "valid-hardware-cert-not-listed", fmt.Sprintf("%d identities listed after %d hardware certificates were accepted (err=%v)", len(l), n, err), rec)
+						return
+					}
+					// the token is pulled: its key leaves the underlying agent, the other key stays
+					ag.Keyring.Remove(k.Pub)
+					switch first {
+					case "list":
+						s.List()
+					case "signers":
+						s.Signers()
+					default:
+						s.Sign(certs[n-1], []byte("x"))
+					}
+					l, err := s.List()
+					if err != nil {
+						r.Violation(c, "list-fails-without-fault", err.Error(), rec)
+						return
+					}
+					still := 0
+					for _, id := range l {
+						for _, crt := range certs {
+							if string(id.Blob) == string(crt.Marshal()) {
+								still++
+							}
+						}
+					}
+					sg, _ := s.Signers()
+					offered := 0
+					for _, x := range sg {
+						for _, crt := range certs {
+							if string(x.PublicKey().Marshal()) == string(crt.Marshal()) {
+								offered++
+							}
+						}
+					}
+					if still > 0 || offered > 0 {
+						r.Violation(c, "orphan-hardware-cert-listed:several-on-one-key", fmt.Sprintf("the key of %d hardware certificates left the underlying agent (another key stayed): %d of them are still listed, %d still offered as signers", n, still, offered), rec)
+						return
+					}
+					for _, crt := range certs {
+						if _, err := s.Sign(crt, []byte("data")); err == nil {
+							r.Violation(c, "sign-with-keyless-hardware-cert-succeeds", "", rec)
+							return
+						}
+					}
+					r.Count("keys with several hardware certificates removed: every one of the certificates gone", 1)
+					r.Nontrivial(fmt.Sprintf("several-orphans:%v:%d:%s", noUp, n, first))
+				}); hung {
+					r.Unfinished("several orphans")
+					return
+				}
+			}
+		}
+	}
+}
